@@ -844,6 +844,64 @@ class SharedDefaults:
             return self.shared(e.func.value, f, local_alias)
         return None
 
+    def param_mutations(self, cg: "CallGraph") -> Dict[Tuple[str, str], Set[str]]:
+        """Parameters through which a function writes (mutator call, `p[..] = v`, `del p[..]`, `p += v`), directly or by handing
+        them to a callee that does (fixpoint over the resolved call graph)."""
+        mut: Dict[Tuple[str, str], Set[str]] = {}
+        for f in self.ix.iter_funcs():
+            ps = set(_param_names(f))
+            m = set()
+            for n in ast.walk(f.node):
+                if isinstance(n, ast.Call) and isinstance(n.func, ast.Attribute) and n.func.attr in MUTATORS and isinstance(n.func.value, ast.Name) and n.func.value.id in ps:
+                    m.add(n.func.value.id)
+                elif isinstance(n, (ast.Assign, ast.AugAssign, ast.Delete)):
+                    for t in (n.targets if isinstance(n, (ast.Assign, ast.Delete)) else [n.target]):
+                        if isinstance(t, ast.Subscript) and isinstance(t.value, ast.Name) and t.value.id in ps:
+                            m.add(t.value.id)
+            mut[f.key] = m
+        changed = True
+        while changed:
+            changed = False
+            for f in self.ix.iter_funcs():
+                ps = set(_param_names(f))
+                for site in cg.sites.get(f.key, []):
+                    for t in site.targets:
+                        for q, arg in StateWrites._bind_args(site.node, t):
+                            if isinstance(arg, ast.Name) and arg.id in ps and q in mut.get(t.key, ()) and arg.id not in mut[f.key]:
+                                mut[f.key].add(arg.id)
+                                changed = True
+        self.mut = mut
+        return mut
+
+    def handed_over(self, f: Func, cg: "CallGraph") -> List[Tuple[ast.AST, str]]:
+        """Calls of f that hand a shared container to a parameter through which the callee writes."""
+        if not hasattr(self, "mut"):
+            self.param_mutations(cg)
+        alias = self._local_aliases(f)
+        out = []
+        for site in cg.sites.get(f.key, []):
+            for t in site.targets:
+                for q, arg in StateWrites._bind_args(site.node, t):
+                    why = self.shared(arg, f, alias)
+                    if why and q in self.mut.get(t.key, ()):
+                        out.append((site.node, f"`{U(site.node)[:60]}` hands {why} to {t.qual}({q}=...), which writes through it"))
+        return out
+
+    def _local_aliases(self, f: Func) -> Dict[str, str]:
+        alias: Dict[str, str] = {}
+        a = f.node.args
+        defaults = list(zip((a.posonlyargs + a.args)[-len(a.defaults):] if a.defaults else [], a.defaults)) + [(p, d) for p, d in zip(a.kwonlyargs, a.kw_defaults) if d is not None]
+        for p, d in defaults:
+            if _is_mutable_literal(d):
+                alias[p.arg] = f"mutable default argument `{p.arg}={U(d)}`"
+        for _ in range(3):
+            for st in ast.walk(f.node):
+                if isinstance(st, ast.Assign) and len(st.targets) == 1 and isinstance(st.targets[0], ast.Name):
+                    why = self.shared(st.value, f, alias)
+                    if why:
+                        alias[st.targets[0].id] = why
+        return alias
+
     def writes(self, f: Func) -> List[Tuple[ast.AST, str]]:
         alias: Dict[str, str] = {}
         a = f.node.args
@@ -861,17 +919,61 @@ class SharedDefaults:
         for n in ast.walk(f.node):
             if isinstance(n, ast.Call) and isinstance(n.func, ast.Attribute) and n.func.attr in MUTATORS:
                 why = self.shared(n.func.value, f, alias)
-                if why:
+                if why and not self._rebound_fresh(f, n.func.value, n, alias):
                     out.append((n, f"`{U(n)[:60]}` writes through {why}"))
             elif isinstance(n, (ast.Assign, ast.AugAssign, ast.Delete)):
                 tgs = n.targets if isinstance(n, (ast.Assign, ast.Delete)) else [n.target]
                 for t in tgs:
                     if isinstance(t, ast.Subscript):
                         why = self.shared(t.value, f, alias)
-                        if why:
+                        if why and not self._rebound_fresh(f, t.value, n, alias):
                             out.append((n, f"`{U(n)[:60]}` writes through {why}"))
                     elif isinstance(n, ast.AugAssign) and isinstance(t, (ast.Name, ast.Attribute)):
                         why = self.shared(t, f, alias)
-                        if why:
+                        if why and not self._rebound_fresh(f, t, n, alias):
                             out.append((n, f"`{U(n)[:60]}` updates in place {why}"))
         return out
+
+    def _rebound_fresh(self, f: Func, recv: ast.AST, use: ast.AST, alias) -> bool:
+        """The receiver (a local or `self.attr`, possibly subscripted) was last re-bound, on every path to `use`, to a fresh object
+        (a copy / a new container): the may-alias fact does not hold at this point."""
+        from .cfg import CFG
+        base = recv
+        while isinstance(base, ast.Subscript):
+            base = base.value
+        if not isinstance(base, (ast.Name, ast.Attribute)):
+            return False
+        key = U(base)
+        if not hasattr(self, "_cfgs"):
+            self._cfgs = {}
+        cfg = self._cfgs.get(f.key)
+        if cfg is None:
+            cfg = self._cfgs[f.key] = CFG(f.node)
+        un = cfg.node_containing(use)
+        if un is None:
+            return False
+        defs = []
+        for n, st in cfg.stmt.items():
+            if isinstance(st, ast.Assign) and any(U(t) == key for t in st.targets) and n != un and cfg.dominates(n, un):
+                defs.append((n, st))
+        if not defs:
+            return False
+        # the closest dominating definition is the one dominated by all the others
+        last = [d for d in defs if all(cfg.dominates(o[0], d[0]) for o in defs)]
+        if not last:
+            return False
+        n0, st0 = last[0]
+        # no other (non-dominating) re-binding between it and the use
+        for n, st in cfg.stmt.items():
+            if isinstance(st, (ast.Assign, ast.AugAssign)) and n not in (n0, un) and any(U(t) == key for t in (st.targets if isinstance(st, ast.Assign) else [st.target])) \
+                    and cfg.reachable(n0, n) and cfg.reachable(n, un) and not cfg.dominates(n, n0):
+                return False
+        v = st0.value
+        if self.shared(v, f, {k: w for k, w in alias.items() if k != key}) is not None:
+            return False
+        # a copy of the shared object (shallow for nested containers: a subscripted receiver stays shared)
+        if isinstance(recv, ast.Subscript):
+            src = v.args[0] if isinstance(v, ast.Call) and v.args else None
+            if src is not None and self.shared(src, f, alias) is not None:
+                return False
+        return True
